@@ -20,7 +20,8 @@ NearMissStyles == {"Snake_Case", "", "kebabcase", "snake-case", "Train_Case", "S
                    "snake_case ", " snake_case", "snake case", "shouty-snake-case", "SNAKE_CASE"} \ KnownStyles
 
 Derives == {"EnumString", "AsRefStr", "IntoStaticStr", "Display", "VariantNames", "VariantArray", "EnumIter", "EnumCount",
-            "EnumIs", "EnumTryAs", "EnumTable", "FromRepr", "EnumMessage", "EnumProperty", "EnumDiscriminants"}
+            "EnumIs", "EnumTryAs", "EnumTable", "FromRepr", "EnumMessage", "EnumProperty", "EnumDiscriminants",
+            "ToString"}        \* deprecated, but it interprets `default` like Display does
 
 \* which derives consume which attribute (documentation of each derive / additional_attributes)
 UsesEnumKw(k) ==
@@ -69,14 +70,15 @@ BaseInstances ==
   \* two default variants
   \cup {Inst("two_defaults", "EnumString", "default", s, "", FALSE) : s \in {"adjacent", "apart", "named_first", "named_second", "both_named"}}
   \* default / transparent on a variant without exactly one field
-  \cup {Inst("default_arity", d, "default", s, p, FALSE) : d \in {"EnumString", "Display"}, s \in {"unit", "tuple2", "named2", "tuple0"}, p \in {"first", "last"}}
+  \cup {Inst("default_arity", d, "default", s, p, FALSE) : d \in {"EnumString", "Display", "ToString"}, s \in {"unit", "tuple2", "named2", "tuple0"}, p \in {"first", "last"}}
   \cup {Inst("transparent_arity", d, "transparent", s, p, FALSE) : d \in {"Display", "AsRefStr", "IntoStaticStr"}, s \in {"unit", "tuple2", "named2", "tuple0"}, p \in {"first", "last"}}
   \* ... also when the variant carries a to_string / serialize next to `transparent`
   \cup {Inst("transparent_arity", d, "transparent", s, p, FALSE) : d \in {"Display", "AsRefStr", "IntoStaticStr"},
                                                                     s \in {"unit_ts", "tuple2_ts", "named2_ts", "tuple0_ts", "tuple2_ser"}, p \in {"first", "last"}}
   \* placeholders on a unit variant; an empty {} on a tuple variant
   \cup {Inst("unit_placeholder", "Display", "to_string", s, p, FALSE) : s \in {"index", "name", "spec", "via_serialize", "via_prefix",
-                                                                            "nonascii_arg", "nonascii_before", "nonascii_around", "nonascii_prefix", "names_const_in_scope", "names_static_in_scope"}, p \in {"first", "last"}}
+                                                                            "nonascii_arg", "nonascii_before", "nonascii_around", "nonascii_prefix", "names_const_in_scope", "names_static_in_scope",
+                                                                            "escaped_brackets", "unicode_escaped_brackets", "raw_string"}, p \in {"first", "last"}}
   \cup {Inst("empty_placeholder", "Display", "to_string", "tuple1", p, FALSE) : p \in {"first", "last"}}
   \* an unknown serialize_all style
   \cup {Inst("unknown_style", d, "serialize_all", s, "", FALSE) : d \in UsesEnumKw("serialize_all"), s \in NearMissStyles}
